@@ -32,9 +32,11 @@ type c16Case struct {
 	Callback  int    `json:"callback"` // 0 registered, 1 nil, 2 error for the main address
 }
 
-var c16Passwords = []string{"FOOBAR", "p~w", "Z", "0123456789abcdefghijABCDEFGHIJ!#$%&()*+", "pÆssørd", "my pass word"}
+var c16Passwords = []string{"FOOBAR", "p~w", "Z", "0123456789abcdefghijABCDEFGHIJ!#$%&()*+", "pÆssørd", "my pass word",
+	// any bytes without CR: white space at either end belongs to the password
+	"FooBar ", " lead", "tab\t", "\nnl", "\u00a0nbsp\u0085", " ", "\v\f"}
 
-// aux configurations: list of (address, kind) with kind 0 = password known, 1 = unknown (empty), 2 = callback error
+// aux configurations: list of (address, kind) with kind 0 = password known, 1 = unknown (empty), 2 = callback error, 3 = known and consisting of one space
 type c16Aux struct {
 	Addr string
 	Kind int
@@ -45,9 +47,15 @@ var c16AuxCfgs = [][]c16Aux{
 	{{"AUX1", 0}}, {{"AUX1", 1}}, {{"AUX1", 2}},
 	{{"AUX1", 0}, {"AUX2-5", 0}}, {{"AUX1", 0}, {"AUX2-5", 1}}, {{"AUX1", 1}, {"AUX2-5", 0}}, {{"AUX1", 0}, {"AUX2-5", 2}}, {{"AUX1", 2}, {"AUX2-5", 0}}, {{"AUX1", 2}, {"AUX2-5", 1}},
 	{{"AUX1", 0}, {"AUX2-5", 2}, {"AUX3", 0}}, {{"AUX1", 1}, {"AUX2-5", 0}, {"AUX3", 2}},
+	{{"AUX1", 3}}, {{"AUX1", 0}, {"AUX2-5", 3}},
 }
 
-func auxPassword(i int) string { return fmt.Sprintf("auxPW~%d~", i) }
+func auxPassword(i int) string {
+	if i == 1 {
+		return "auxPW~1~ " // trailing space
+	}
+	return fmt.Sprintf("auxPW~%d~", i)
+}
 
 // c16Judge returns (class, detail, digest).
 func c16Judge(c c16Case) (string, string, [16]byte) {
@@ -74,6 +82,8 @@ func c16Judge(c c16Case) (string, string, [16]byte) {
 							return auxPassword(i), nil
 						case 1:
 							return "", nil
+						case 3:
+							return " ", nil
 						default:
 							return "", errors.New("unknown address")
 						}
@@ -97,6 +107,9 @@ func c16Judge(c c16Case) (string, string, [16]byte) {
 		}
 		return s
 	}()...) {
+		if strings.TrimSpace(secret) == "" {
+			continue // a password of white space only cannot be told from the separators
+		}
 		if (i == 0 && c.Callback == 0 || i > 0 && c.Callback != 1) && bytes.Contains(out, []byte(secret)) {
 			return "password-on-the-wire", fmt.Sprintf("%q", out), sum
 		}
@@ -134,6 +147,9 @@ func c16Judge(c c16Case) (string, string, [16]byte) {
 		if a.Kind == 0 {
 			r, _ := secure.Response(c.Challenge, auxPassword(i))
 			wantFW += " " + a.Addr + "|" + r
+		} else if a.Kind == 3 {
+			r, _ := secure.Response(c.Challenge, " ")
+			wantFW += " " + a.Addr + "|" + r
 		} else {
 			wantFW += " " + a.Addr
 		}
@@ -170,6 +186,22 @@ func C16(args []string) {
 		challenges = append(challenges, strings.Repeat(fmt.Sprint(d), 8))
 	}
 	challenges = append(challenges, "23753528", strings.Repeat("1234567890abcdef", 4), "ABCDEF", "a b", "12:34", "9"+strings.Repeat("0", 30))
+	// every string of up to 3 symbols over an alphabet that contains the characters of the ";PQ: " prefix
+	// and the protocol's separators (white space at either end excluded: the line reader trims it)
+	const sym = "07AQP;: |>"
+	for n := 1; n <= 3; n++ {
+		for i := 0; i < countStrings(len(sym), n); i++ {
+			b := make([]byte, n)
+			for k, v := n-1, i; k >= 0; k, v = k-1, v/len(sym) {
+				b[k] = sym[v%len(sym)]
+			}
+			if b[0] == ' ' || b[n-1] == ' ' {
+				continue
+			}
+			challenges = append(challenges, string(b))
+		}
+	}
+	challenges = append(challenges, "Q8471203", "PQ123456", ":1234567", ";PQ: 1234", "QPQP")
 	var classLeadingZero, classBig, class40, class80 atomic.Int64
 	judge := func(c c16Case) {
 		r.Evals.Add(1)
